@@ -1,14 +1,19 @@
 #!/bin/sh
-# tools/seed_sweep.sh: every stored seed against the check of its own property, in SCRATCH copies of /repo (a git worktree)
-# and /verif (rsync), so that /repo and /verif stay usable meanwhile; prints one line per seed; removes the copies at the end
-S=/tmp/sweep; rm -rf $S; mkdir -p $S
+# tools/seed_sweep.sh [shard-index shard-count]: every stored seed against the check of its own property, in SCRATCH copies
+# of /repo (a git worktree) and /verif (rsync), so that /repo and /verif stay usable meanwhile; prints one line per seed;
+# removes the copies at the end.  With two arguments only the seeds whose ordinal % count == index are run, one scratch
+# pair per shard:   for i in 0 1 2 3; do sh tools/seed_sweep.sh $i 4 > .tmp/sweep.$i.log 2>&1 & done
+I=${1:-0}; N=${2:-1}
+S=/tmp/sweep.$I; rm -rf $S; mkdir -p $S
 git -C /repo worktree prune
 git -C /repo worktree add --detach $S/repo HEAD -q || exit 2
 rsync -a --exclude .git --exclude .venv --exclude .tmp --exclude replays /verif/ $S/verif/
 ln -s /verif/.venv $S/verif/.venv; mkdir -p $S/verif/.tmp $S/verif/replays
 export REPO=$S/repo VERIF=$S/verif
 cd /verif
+k=0
 for d in seeded/*/; do
+  k=$((k+1)); [ $((k % N)) -eq $I ] || continue
   id=$(basename $d); p=${id%-*}
   case $id in
     C06-3) p="C07 C06";; C12-3) p="C07 C12";; C01-3) p="C01 C07";; C15-1) p="C15 C16";; C15-3) p="C15 C01";;
